@@ -290,7 +290,18 @@ class SGen:
         if k == 23:
             return [f'{ind}while {e()}:'] + self.block(d + 1, kind, ind + '    ')
         if k == 24:
-            return [f'{ind}type {self.name().upper()}' + (f'[{self.name().upper()}]' if r.random() < 0.5 else '') + f' = {e()}']
+            tps = ''
+            if r.random() < 0.6:
+                ps = []
+                for t in r.sample(['T', 'U', 'V'], r.randint(1, 2)):
+                    c = r.random()
+                    ps.append(t if c < 0.3 else f'{t}: {e()}' if c < 0.7 else f'{t}: ({e()}, {e()})')
+                if r.random() < 0.2:
+                    ps.append('*Ts')
+                if r.random() < 0.2:
+                    ps.append('**P')
+                tps = '[' + ', '.join(ps) + ']'
+            return [f'{ind}type {self.name().upper()}{tps} = {e()}']
         if k == 25:
             return [f'{ind}{self.name()} = {self.comp(1, in_class)}']
         if k == 26:
@@ -455,3 +466,63 @@ MUT_TEMPLATES = {
     'FunctionDef': 'def f(items, factor):\n    @wrap(factor)\n    def key(it, sc=factor) -> res:\n        return it * sc * bias\n    return sorted(items, key=key)\n',
     'ClassDef': 'def f(items, factor):\n    @wrap(factor)\n    class key(base, kw=factor):\n        w = bias\n    return sorted(items, key=key)\n',
 }
+
+
+def typealias_programs():
+    """`type` statements (PEP 695) whose type parameters are NOT the walk root's own: every form of type parameter
+    (plain / bound / constraints / *Ts / **P, bounds holding a call, a lambda with a default, a comprehension) x the value x
+    the place of the statement (module, def, async def, class, inside a block, inside a generic def / class that has type
+    parameters of its own, two levels down, in a lambda-free nested def whose enclosing def binds the names)."""
+    out = []
+    n = [0]
+
+    def nm(p):
+        n[0] += 1
+        return f'{p}{n[0]}'
+
+    def tparams(form):
+        if form == 'none':
+            return ''
+        if form == 'plain':
+            return '[T]'
+        if form == 'bound':
+            return f'[T: {nm("Bound")}]'
+        if form == 'constraints':
+            return f'[K: ({nm("ConsA")}, {nm("ConsB")}.{nm("attr")})]'
+        if form == 'mixed':
+            return f'[U: ({nm("ConsC")}, {nm("ConsD")}), V: {nm("BoundV")}[{nm("idx")}], *Ts, **P]'
+        if form == 'callbound':
+            return f'[T: {nm("mk")}({nm("arg")}, key=lambda q={nm("ldf")}: q)]'
+        if form == 'compbound':
+            return f'[T: ({nm("cb")}[0], [c for c in {nm("cit")}({nm("ciarg")})])]'
+        raise ValueError(form)
+
+    forms = ['none', 'plain', 'bound', 'constraints', 'mixed', 'callbound', 'compbound']
+    places = ['module', 'def', 'async def', 'class', 'def>if', 'class>for', 'generic def', 'generic class', 'def>def', 'def>class',
+              'class>def']
+    for place in places:
+        for form in forms:
+            stmt = f'type {nm("Alias")}{tparams(form)} = dict[{"T" if form in ("plain", "bound", "callbound", "compbound") else nm("KeyT")}, {nm("Value")}] | {nm("Other")}'
+            lines = [f'{nm("pre")} = {nm("prev")}', stmt, f'{nm("post")} = {nm("postv")}']
+            for lvl in reversed(place.split('>')):
+                if lvl == 'module':
+                    continue
+                if lvl == 'def':
+                    hdr = f'def {nm("fn")}(pa, pb={nm("df")}):'
+                elif lvl == 'async def':
+                    hdr = f'async def {nm("afn")}(pa):'
+                elif lvl == 'class':
+                    hdr = f'class {nm("Cls")}({nm("Base")}):'
+                elif lvl == 'if':
+                    hdr = f'if {nm("cond")}:'
+                elif lvl == 'for':
+                    hdr = f'for {nm("it")} in {nm("seq")}:'
+                elif lvl == 'generic def':
+                    hdr = f'def {nm("gfn")}[G: {nm("GBound")}](pa: G) -> G:'
+                else:
+                    hdr = f'class {nm("GCls")}[G: {nm("GBound")}]({nm("Base")}[G]):'
+                lines = [hdr] + ['    ' + l for l in lines]
+            src = '\n'.join(lines) + '\n'
+            if valid(src):
+                out.append(src)
+    return out
